@@ -6,6 +6,7 @@ import (
 	"maps"
 	"regexp"
 	"strconv"
+	"sync"
 
 	"github.com/BondMachineHQ/BondMachine/pkg/procbuilder"
 	"github.com/BondMachineHQ/BondMachine/pkg/simbox"
@@ -52,6 +53,19 @@ type VM struct {
 	wait_proc int
 
 	abs_tick uint64
+
+	stopChan chan struct{} // closed by Stop: tells the workers started by Launch_processors to exit
+	stopOnce sync.Once
+}
+
+// Stop terminates the goroutines started by Launch_processors (the per-processor workers and the
+// emulation driver dispatcher). It is idempotent; the VM must not be stepped afterwards.
+func (vm *VM) Stop() {
+	vm.stopOnce.Do(func() {
+		if vm.stopChan != nil {
+			close(vm.stopChan)
+		}
+	})
 }
 
 func (vm *VM) CopyState(vmSource *VM) error {
@@ -140,7 +154,14 @@ type SimReport struct {
 
 func (vm *VM) Processor_execute(psc *procbuilder.SimConfig, instruct <-chan int, resp chan<- int, resultChan chan<- string, procId int) {
 	for {
-		switch <-instruct {
+		var cmd int
+		select {
+		case <-vm.stopChan:
+			return
+		case c := <-instruct:
+			cmd = c
+		}
+		switch cmd {
 		case 0:
 			resp <- procId
 		case 1:
@@ -182,6 +203,7 @@ func (vm *VM) Init() error {
 
 	cmdChan := make(chan []byte)
 	vm.cmdChan = cmdChan
+	vm.stopChan = make(chan struct{})
 
 	for _, ed := range vm.EmuDrivers {
 		ed.Init()
@@ -298,6 +320,8 @@ func (vm *VM) EmuDriverDispatcher() {
 	// fmt.Println("EmuDriverDispatcher", vm.EmuDrivers)
 	for {
 		select {
+		case <-vm.stopChan:
+			return
 		case cmd := <-vm.cmdChan:
 			for _, ed := range vm.EmuDrivers {
 				ed.PushCommand(cmd)
